@@ -41,6 +41,7 @@ TABLE = {
  "the Jupyter kernel drops an invalid shell message instead of shutting down": ("C19", "request sequence [execute_request signed with a wrong key, kernel_info_request]: the forged request shut the session down and the valid request got no reply"),
  "exceptions in trigger functions are logged with the script's traceback (new subsystem)": ("C18", "new subsystem: 1/0 three calls below an @event_trigger function was logged by custom_components.pyscript.function as 'run_coro: got exception' with an eval.py frame, not on the script's logger with hello.py frames"),
  "a deleted file of an app or module triggers the documented dependent reloads": ("C10", "delete apps/app1/sib.py (imported by apps/app1/__init__.py) + default reload: app1 was not reloaded and kept the stale sibling; delete modules/m1.py: its importers were not reloaded; reload(global_ctx='apps.app1') after deleting the sibling left the context apps.app1.sib loaded"),
+ "once() with a yearless, day-of-week or sun-relative date keeps finding its next occurrence": ("C06", "timer_trigger_next(['once(wed 2:30)'], now=Wed 2020-01-01 02:30:00) gave None (next Wednesday expected; the trigger ended after firing once); same for once(12/31 noon) after 12/31 noon of the current year; once(sunrise +1d) at now=2019-12-31 06:51:16 gave None"),
 }
 log = subprocess.run(["git", "-C", "/repo", "log", "--reverse", "--format=%h %s"], capture_output=True, text=True).stdout.strip().split("\n")
 fixed = []
